@@ -158,7 +158,7 @@ func (x *Explorer) runPath(sv *Solver, it qitem) {
 	s0, u0, k0 := sv.nSat, sv.nUnsat, sv.nUnk
 	e := &Exec{prog: x.prog, pkg: x.pkg, globals: map[*ssa.Global]*Value{}, solver: sv, prefix: prefix,
 		enqueue: x.push, intr: map[*ssa.Function]intrinsic{}, funcsHit: map[*ssa.Function]int{}, res: x.res, model: it.model,
-		sharedWrites: map[string]int{}, envAccess: map[string]int{}, params: x.params, known: x.known, modelsUsed: map[string]int{}, cover: map[string]int{}, decided: map[*Term]bool{}}
+		sharedWrites: map[string]int{}, envAccess: map[string]int{}, params: x.params, known: x.known, modelsUsed: map[string]int{}, cover: map[string]int{}, decided: map[*Term]bool{}, lockedWrites: map[string]int{}, mapWritten: map[*Map]bool{}, mapUnlocked: map[*Map]map[string]int{}, harnessFn: map[*ssa.Function]bool{}}
 	outcome := "ok"
 	detail := ""
 	func() {
